@@ -30,7 +30,9 @@ func (o SortOrder) Fields() (fields []string) {
 
 func (o SortOrder) Copy() SortOrder {
 	rv := make(SortOrder, len(o))
-	copy(rv, o)
+	for i, oi := range o {
+		rv[i] = oi.copy()
+	}
 	return rv
 }
 
@@ -91,6 +93,26 @@ func SortBy(source TextValueSource) *Sort {
 		first: &rv.missingFirst,
 	})
 
+	return rv
+}
+
+// copy returns a Sort that can be changed (Desc, MissingFirst, Reverse)
+// without changing s: the missing-value replacement of the copy reads the
+// copy's own flags.
+func (s *Sort) copy() *Sort {
+	rv := &Sort{
+		source:       s.source,
+		desc:         s.desc,
+		missingFirst: s.missingFirst,
+	}
+	if mts, ok := s.source.(*MissingTextValueSource); ok {
+		if _, ok := mts.replacement.(*sortFirstLast); ok {
+			rv.source = MissingTextValue(mts.primary, &sortFirstLast{
+				desc:  &rv.desc,
+				first: &rv.missingFirst,
+			})
+		}
+	}
 	return rv
 }
 
